@@ -5,6 +5,7 @@ Property theorems only; model in `Model/C02.lean`, stage lemmas in `Lemmas/C02.l
 import NotationModel.Lemmas.C02
 import NotationModel.Generated.SrcLevels
 import NotationModel.Generated.SrcVerifier
+import NotationModel.Generated.SrcAttrs
 set_option linter.unusedSimpArgs false
 set_option linter.unusedVariables false
 set_option maxRecDepth 4000
@@ -701,6 +702,112 @@ example : (GetVerificationLevel { VerificationLevel := "strict", Override := [("
     some [("integrity", "enforce"), ("authenticity", "enforce"), ("authenticTimestamp", "enforce"),
           ("expiry", "enforce"), ("revocation", "skip")] := by decide
 example : (GetVerificationLevel { VerificationLevel := "audit", Override := [("integrity", "log")] }).2.isSome = true := by decide
+
+/-! #### reading the verification-plugin attributes -/
+section Attrs
+open NotationModel.Src.verifier NotationModel.Src.signature
+
+/-- what a signature's extended attributes say about the verification plugin, as the model's input puts it -/
+def classifyPlugin (si : SignerInfo) : PluginAttr :=
+  match si.SignedAttributes.ExtendedAttributes.find? (fun a => a.Key == .str HeaderVerificationPlugin) with
+  | none => .absent
+  | some a =>
+    if !a.Critical then .notCritical
+    else match a.Value with
+      | .other _ => .notString
+      | .str s => if GoLite.trimSpace s == "" then .blank else .named
+
+def classifyMinVer (isValidSemver : String → Bool) (si : SignerInfo) : MinVerAttr :=
+  match si.SignedAttributes.ExtendedAttributes.find? (fun a => a.Key == .str HeaderVerificationPluginMinVersion) with
+  | none => .absent
+  | some a =>
+    if !a.Critical then .notCritical
+    else match a.Value with
+      | .other _ => .notString
+      | .str s => if GoLite.trimSpace s == "" then .blank else if !isValidSemver s then .invalidSemver else .valid
+
+/-- TIE: `getVerificationPlugin` (with `extractCriticalStringExtendedAttribute`) classifies the plugin
+attribute exactly as the model's input enumeration does: absent -> the not-exist sentinel (no plugin
+demanded), a critical non-blank string -> that name, everything else -> another error -/
+theorem source_getVerificationPlugin_refines_model (si : SignerInfo) :
+    (classifyPlugin si = .absent → getVerificationPlugin si = ("", some errExtendedAttributeNotExist)) ∧
+    (classifyPlugin si = .named → (getVerificationPlugin si).2 = none ∧
+        ∃ a, si.SignedAttributes.ExtendedAttributes.find? (fun a => a.Key == .str HeaderVerificationPlugin) = some a ∧
+          a.Value = .str (getVerificationPlugin si).1) ∧
+    (classifyPlugin si ≠ .absent → classifyPlugin si ≠ .named →
+        (getVerificationPlugin si).1 = "" ∧ (getVerificationPlugin si).2.isSome = true ∧
+        (getVerificationPlugin si).2 ≠ some errExtendedAttributeNotExist) := by
+  unfold getVerificationPlugin extractCriticalStringExtendedAttribute classifyPlugin SignerInfo.ExtendedAttribute
+  simp only [Id.run]
+  cases hf : si.SignedAttributes.ExtendedAttributes.find? (fun a => a.Key == .str HeaderVerificationPlugin) with
+  | none => simp [GoLite.idPure, GoLite.idBind]
+  | some a =>
+    cases hc : a.Critical with
+    | false => simp [hc, GoLite.idPure, GoLite.idBind, GoLite.errorf, errExtendedAttributeNotExist]
+    | true =>
+      cases hv : a.Value with
+      | other t => simp [hc, hv, AVal.asString, GoLite.idPure, GoLite.idBind, GoLite.errorf, errExtendedAttributeNotExist]
+      | str s =>
+        by_cases hb : (GoLite.trimSpace s == "") = true
+        · simp [hc, hv, hb, AVal.asString, GoLite.idPure, GoLite.idBind, GoLite.errorf, errExtendedAttributeNotExist]
+        · simp [hc, hv, hb, AVal.asString, GoLite.idPure, GoLite.idBind, GoLite.errorf, errExtendedAttributeNotExist]
+
+theorem source_getVerificationPluginMinVersion_refines_model (isValidSemver : String → Bool) (si : SignerInfo) :
+    (classifyMinVer isValidSemver si = .absent →
+        getVerificationPluginMinVersion isValidSemver si = ("", some errExtendedAttributeNotExist)) ∧
+    (classifyMinVer isValidSemver si = .valid → (getVerificationPluginMinVersion isValidSemver si).2 = none ∧
+        ∃ a, si.SignedAttributes.ExtendedAttributes.find? (fun a => a.Key == .str HeaderVerificationPluginMinVersion) = some a ∧
+          a.Value = .str (getVerificationPluginMinVersion isValidSemver si).1) ∧
+    (classifyMinVer isValidSemver si ≠ .absent → classifyMinVer isValidSemver si ≠ .valid →
+        (getVerificationPluginMinVersion isValidSemver si).1 = "" ∧
+        (getVerificationPluginMinVersion isValidSemver si).2.isSome = true ∧
+        (getVerificationPluginMinVersion isValidSemver si).2 ≠ some errExtendedAttributeNotExist) := by
+  unfold getVerificationPluginMinVersion extractCriticalStringExtendedAttribute classifyMinVer SignerInfo.ExtendedAttribute
+  simp only [Id.run]
+  cases hf : si.SignedAttributes.ExtendedAttributes.find? (fun a => a.Key == .str HeaderVerificationPluginMinVersion) with
+  | none => simp [GoLite.idPure, GoLite.idBind]
+  | some a =>
+    cases hc : a.Critical with
+    | false => simp [hc, GoLite.idPure, GoLite.idBind, GoLite.errorf, errExtendedAttributeNotExist]
+    | true =>
+      cases hv : a.Value with
+      | other t => simp [hc, hv, AVal.asString, GoLite.idPure, GoLite.idBind, GoLite.errorf, errExtendedAttributeNotExist]
+      | str s =>
+        by_cases hb : (GoLite.trimSpace s == "") = true
+        · simp [hc, hv, hb, AVal.asString, GoLite.idPure, GoLite.idBind, GoLite.errorf, errExtendedAttributeNotExist]
+        · by_cases hs : isValidSemver s = true
+          · simp [hc, hv, hb, hs, AVal.asString, GoLite.idPure, GoLite.idBind, GoLite.errorf, errExtendedAttributeNotExist]
+          · simp [hc, hv, hb, hs, AVal.asString, GoLite.idPure, GoLite.idBind, GoLite.errorf, errExtendedAttributeNotExist]
+
+/-- TIE: the attributes handed to the plugin for processing are ALL extended attributes with a string
+key other than the two plugin headers - critical or not, in signature order (the function's name
+notwithstanding) -/
+theorem source_getNonPluginExtendedCriticalAttributes_refines_model (si : SignerInfo) :
+    getNonPluginExtendedCriticalAttributes si =
+      si.SignedAttributes.ExtendedAttributes.filter (fun a =>
+        match a.Key with
+        | .str k => !(VerificationPluginHeaders.contains k)
+        | .other _ => false) := by
+  unfold getNonPluginExtendedCriticalAttributes
+  simp only [Id.run]
+  rw [GoLite.forIn_appendIf]
+  simp only [pure_bind]
+  show ([] ++ List.filter _ _) = _
+  rw [List.nil_append]
+  apply List.filter_congr
+  intro a _
+  cases a.Key <;> simp [AVal.asString, GoLite.contains]
+
+/-- non-vacuity: a critical attribute with a sharing-the-prefix key is NOT a plugin header and is handed on -/
+example : (getNonPluginExtendedCriticalAttributes { SignedAttributes := { ExtendedAttributes :=
+    [{ Key := .str "io.cncf.notary.verificationPlugin", Critical := true, Value := .str "p" },
+     { Key := .str "io.cncf.notary.verificationPluginConfigDigest", Critical := true, Value := .str "x" },
+     { Key := .other 7, Critical := true, Value := .str "y" }] } }).map (·.Key) =
+    [.str "io.cncf.notary.verificationPluginConfigDigest"] := by decide
+example : getVerificationPlugin { SignedAttributes := { ExtendedAttributes :=
+    [{ Key := .str "io.cncf.notary.verificationPlugin", Critical := true, Value := .str "  " }] } } =
+    ("", some ⟨"error"⟩) := by decide
+end Attrs
 
 end Tie
 
